@@ -248,4 +248,597 @@ theorem C37_get_eraseVP (s : Lsm) (k : Bytes) (ts : Nat) :
   rw [show ({ done := ({} : GetAcc).done, best := none } : GetAcc) = {} from rfl] at this
   rw [this]
 
+/-! ## the simulation: every step commutes with `norm` -/
+
+theorem eraseL_idem (l : List Ent) : eraseL (eraseL l) = eraseL l := by
+  simp [eraseL]
+
+theorem Tbl.eraseVP_idem (t : Tbl) : t.eraseVP.eraseVP = t.eraseVP := by
+  simp [Tbl.eraseVP, eraseL_idem]
+
+theorem Lsm.eraseVP_idem (s : Lsm) : s.eraseVP.eraseVP = s.eraseVP := by
+  simp only [Lsm.eraseVP, eraseL_idem, List.map_map]
+  congr 1
+  · apply List.map_congr_left; intro l _; exact eraseL_idem l
+  · apply List.map_congr_left; intro l _
+    simp only [Function.comp, List.map_map]
+    apply List.map_congr_left; intro t _; exact Tbl.eraseVP_idem t
+
+theorem norm_idem (d : Db) : d.norm.norm = d.norm := by
+  simp [Db.norm, Lsm.eraseVP_idem]
+
+@[simp] theorem norm_txns (d : Db) : d.norm.txns = d.txns := rfl
+@[simp] theorem norm_findTxn (d : Db) (id : Nat) : d.norm.findTxn id = d.findTxn id := rfl
+@[simp] theorem norm_setTxn (d : Db) (t : TxnM) : (d.setTxn t).norm = d.norm.setTxn t := rfl
+@[simp] theorem norm_lsm (d : Db) : d.norm.lsm = d.lsm.eraseVP := rfl
+@[simp] theorem norm_now (d : Db) : d.norm.now = d.now := rfl
+
+@[simp] theorem norm_managed (d : Db) : d.norm.opts.managed = d.opts.managed := rfl
+@[simp] theorem norm_detect (d : Db) : d.norm.opts.detectConflicts = d.opts.detectConflicts := rfl
+@[simp] theorem norm_threshold (d : Db) : d.norm.opts.threshold = d.opts.threshold := rfl
+@[simp] theorem norm_readMark (d : Db) : d.norm.readMark = d.readMark := rfl
+@[simp] theorem norm_nextTs (d : Db) : d.norm.nextTs = d.nextTs := rfl
+@[simp] theorem norm_committed (d : Db) : d.norm.committed = d.committed := rfl
+@[simp] theorem norm_discardTs (d : Db) : d.norm.discardTs = d.discardTs := rfl
+@[simp] theorem norm_lastCleanupTs (d : Db) : d.norm.lastCleanupTs = d.lastCleanupTs := rfl
+@[simp] theorem norm_discardAtOrBelow (d : Db) : d.norm.discardAtOrBelow = d.discardAtOrBelow := rfl
+
+theorem norm_doneRead (d : Db) (t : TxnM) :
+    (d.doneRead t).1.norm = (d.norm.doneRead t).1 ∧ (d.norm.doneRead t).2 = (d.doneRead t).2 := by
+  cases hdr : t.doneRead <;> cases hm : d.opts.managed <;>
+    (have hm' : d.norm.opts.managed = _ := hm
+     simp only [Db.doneRead, hdr, hm, hm', Bool.or_self, Bool.or_true, Bool.or_false,
+       Bool.false_eq_true, if_false, if_true, and_true]
+     try rfl)
+
+theorem norm_cleanup (d : Db) : d.cleanup.norm = d.norm.cleanup := by
+  cases hc : d.opts.detectConflicts
+  · have hc' : d.norm.opts.detectConflicts = false := hc
+    simp only [Db.cleanup, hc, hc', Bool.not_false, if_true]
+  · have hc' : d.norm.opts.detectConflicts = true := hc
+    cases h2 : (d.discardAtOrBelow == d.lastCleanupTs)
+    · have h2' : (d.norm.discardAtOrBelow == d.norm.lastCleanupTs) = false := h2
+      simp only [Db.cleanup, hc, hc', Bool.not_true, Bool.false_eq_true, if_false, h2, h2']
+      rfl
+    · have h2' : (d.norm.discardAtOrBelow == d.norm.lastCleanupTs) = true := h2
+      simp only [Db.cleanup, hc, hc', Bool.not_true, Bool.false_eq_true, if_false, h2, h2', if_true]
+
+theorem norm_discardTxn (d : Db) (id : Nat) : (d.discardTxn id).norm = d.norm.discardTxn id := by
+  unfold Db.discardTxn
+  rw [norm_findTxn]
+  cases d.findTxn id with
+  | none => rfl
+  | some t =>
+    dsimp -zeta only
+    split
+    · rfl
+    · have := norm_doneRead d t
+      show ((d.doneRead t).1.setTxn { (d.doneRead t).2 with discarded := true }).norm =
+        (d.norm.doneRead t).1.setTxn { (d.norm.doneRead t).2 with discarded := true }
+      rw [norm_setTxn, this.1, this.2]
+
+
+/-- the non-LSM part of the write path of `commit` -/
+def commitStage (d : Db) (t : TxnM) (mts : Nat) : Db :=
+  let d1 := (d.doneRead t).1
+  let t1 := (d.doneRead t).2
+  let d2 := if d1.opts.managed then d1 else d1.cleanup
+  let cts := if d2.opts.managed then mts else d2.nextTs
+  let d3 := if d2.opts.managed then d2 else { d2 with nextTs := d2.nextTs + 1 }
+  if d3.opts.detectConflicts then { d3 with committed := (cts, t1.writes) :: d3.committed } else d3
+
+theorem commitApply_stage (d : Db) (t : TxnM) (id mts : Nat) :
+    commitApply d t id mts =
+      ((({ commitStage d t mts with lsm := { (commitStage d t mts).lsm with
+          mem := (((d.doneRead t).2.pending ++ (d.doneRead t).2.dups).map
+            (finEnt (commitStage d t mts) (keepTogetherOf t)
+              (if (if (d.doneRead t).1.opts.managed then (d.doneRead t).1 else (d.doneRead t).1.cleanup).opts.managed
+               then mts else (if (d.doneRead t).1.opts.managed then (d.doneRead t).1 else (d.doneRead t).1.cleanup).nextTs))).foldl
+            (fun m e => memPut e m) (commitStage d t mts).lsm.mem } } : Db).setTxn (d.doneRead t).2).discardTxn id,
+       .ok (if (if (d.doneRead t).1.opts.managed then (d.doneRead t).1 else (d.doneRead t).1.cleanup).opts.managed
+               then mts else (if (d.doneRead t).1.opts.managed then (d.doneRead t).1 else (d.doneRead t).1.cleanup).nextTs)) := rfl
+
+theorem commitStage_facts (d : Db) (t : TxnM) (mts : Nat) :
+    (commitStage d t mts).lsm = d.lsm ∧ (commitStage d t mts).opts = d.opts := by
+  unfold commitStage
+  cases hm : d.opts.managed <;> cases hc : d.opts.detectConflicts <;>
+    simp [hm, hc]
+
+def stage2 (d : Db) : Db := if d.opts.managed then d else d.cleanup
+def stage3 (d : Db) : Db := if d.opts.managed then d else { d with nextTs := d.nextTs + 1 }
+def stage4 (d : Db) (cts : Nat) (w : List Bytes) : Db :=
+  if d.opts.detectConflicts then { d with committed := (cts, w) :: d.committed } else d
+
+theorem norm_stage2 (d : Db) : (stage2 d).norm = stage2 d.norm := by
+  unfold stage2
+  cases hm : d.opts.managed
+  · have hm' : d.norm.opts.managed = false := hm
+    simp only [hm', Bool.false_eq_true, if_false]; exact norm_cleanup d
+  · have hm' : d.norm.opts.managed = true := hm
+    simp only [hm', if_true]
+theorem norm_stage3 (d : Db) : (stage3 d).norm = stage3 d.norm := by
+  unfold stage3
+  cases hm : d.opts.managed
+  · have hm' : d.norm.opts.managed = false := hm
+    simp only [hm', Bool.false_eq_true, if_false]; rfl
+  · have hm' : d.norm.opts.managed = true := hm
+    simp only [hm', if_true]
+theorem norm_stage4 (d : Db) (c : Nat) (w : List Bytes) : (stage4 d c w).norm = stage4 d.norm c w := by
+  unfold stage4
+  cases hm : d.opts.detectConflicts
+  · have hm' : d.norm.opts.detectConflicts = false := hm
+    simp only [hm', Bool.false_eq_true, if_false]
+  · have hm' : d.norm.opts.detectConflicts = true := hm
+    simp only [hm', if_true]; rfl
+
+theorem commitStage_eq (d : Db) (t : TxnM) (mts : Nat) :
+    commitStage d t mts =
+      stage4 (stage3 (stage2 (d.doneRead t).1))
+        (if (stage2 (d.doneRead t).1).opts.managed then mts else (stage2 (d.doneRead t).1).nextTs)
+        (d.doneRead t).2.writes := rfl
+
+theorem norm_commitStage (d : Db) (t : TxnM) (mts : Nat) :
+    (commitStage d t mts).norm = commitStage d.norm t mts := by
+  rw [commitStage_eq, commitStage_eq, norm_stage4, norm_stage3, norm_stage2, (norm_doneRead d t).1,
+    (norm_doneRead d t).2]
+  have : stage2 (d.norm.doneRead t).1 = (stage2 (d.doneRead t).1).norm := by
+    rw [norm_stage2, (norm_doneRead d t).1]
+  rw [this]
+  rfl
+
+
+theorem finEnt_eraseVP (d1 d2 : Db) (keep : Bool) (cts : Nat) (e : Ent) :
+    (finEnt d1 keep cts e).eraseVP = (finEnt d2 keep cts e).eraseVP := by
+  unfold finEnt
+  rw [C37_lsmForm_eraseVP, C37_lsmForm_eraseVP]
+
+theorem norm_withMem (D : Db) (m : List Ent) :
+    ({ D with lsm := { D.lsm with mem := m } } : Db).norm =
+      { D.norm with lsm := { D.norm.lsm with mem := eraseL m } } := rfl
+
+theorem norm_commitApply (d : Db) (t : TxnM) (id mts : Nat) :
+    (commitApply d t id mts).1.norm = (commitApply d.norm t id mts).1.norm ∧
+    (commitApply d.norm t id mts).2 = (commitApply d t id mts).2 := by
+  rw [commitApply_stage, commitApply_stage]
+  have hs2 : stage2 (d.norm.doneRead t).1 = (stage2 (d.doneRead t).1).norm := by
+    rw [norm_stage2, (norm_doneRead d t).1]
+  have hcts : (if (if (d.norm.doneRead t).1.opts.managed then (d.norm.doneRead t).1 else (d.norm.doneRead t).1.cleanup).opts.managed
+               then mts else (if (d.norm.doneRead t).1.opts.managed then (d.norm.doneRead t).1 else (d.norm.doneRead t).1.cleanup).nextTs) =
+      (if (if (d.doneRead t).1.opts.managed then (d.doneRead t).1 else (d.doneRead t).1.cleanup).opts.managed
+               then mts else (if (d.doneRead t).1.opts.managed then (d.doneRead t).1 else (d.doneRead t).1.cleanup).nextTs) := by
+    show (if (stage2 (d.norm.doneRead t).1).opts.managed then mts else (stage2 (d.norm.doneRead t).1).nextTs) =
+      (if (stage2 (d.doneRead t).1).opts.managed then mts else (stage2 (d.doneRead t).1).nextTs)
+    rw [hs2]; rfl
+  refine ⟨?_, by simp only [hcts]⟩
+  simp only [hcts, (norm_doneRead d t).2]
+  simp only [norm_discardTxn, norm_setTxn, norm_withMem, foldl_memPut_eraseL]
+  rw [← norm_commitStage, norm_idem]
+  have e1 : eraseL (commitStage d t mts).norm.lsm.mem = eraseL (commitStage d t mts).lsm.mem :=
+    eraseL_idem _
+  have e2 : ∀ (c : Nat) (L : List Ent),
+      eraseL (L.map (finEnt (commitStage d t mts).norm (keepTogetherOf t) c)) =
+        eraseL (L.map (finEnt (commitStage d t mts) (keepTogetherOf t) c)) := by
+    intro c L
+    simp only [eraseL, List.map_map]
+    apply List.map_congr_left
+    intro e _
+    exact finEnt_eraseVP _ _ _ _ e
+  rw [e1, e2]
+
+
+theorem norm_commit (d : Db) (id mts : Nat) :
+    (d.commit id mts).1.norm = (d.norm.commit id mts).1.norm ∧
+    (d.norm.commit id mts).2 = (d.commit id mts).2 := by
+  cases hf : d.findTxn id with
+  | none =>
+    have hf' : d.norm.findTxn id = none := hf
+    rw [commit_none mts hf, commit_none mts hf']
+    exact ⟨(norm_idem d).symm, rfl⟩
+  | some t =>
+    have hf' : d.norm.findTxn id = some t := hf
+    rw [commit_eq mts hf, commit_eq mts hf']
+    have hc : d.norm.hasConflict t = d.hasConflict t := rfl
+    simp only [norm_managed, norm_detect, hc]
+    by_cases h1 : t.pending.isEmpty = true
+    · simp only [if_pos h1, norm_discardTxn, norm_idem, and_self]
+    simp only [if_neg h1]
+    by_cases h2 : t.discarded = true
+    · simp only [if_pos h2, norm_idem, and_self]
+    simp only [if_neg h2]
+    by_cases h3 : (keepTogetherOf t && d.opts.managed && mts == 0) = true
+    · simp only [if_pos h3, norm_idem, and_self]
+    simp only [if_neg h3]
+    by_cases h4 : (d.opts.detectConflicts && d.hasConflict t) = true
+    · simp only [if_pos h4, norm_discardTxn, norm_idem, and_self]
+    simp only [if_neg h4]
+    exact norm_commitApply d t id mts
+
+theorem norm_begin (d : Db) (id : Nat) (u : Bool) (m : Nat) :
+    (d.begin id u m).1.norm = (d.norm.begin id u m).1 ∧ (d.norm.begin id u m).2 = (d.begin id u m).2 := by
+  unfold Db.begin
+  cases hm : d.opts.managed
+  · have hm' : d.norm.opts.managed = false := hm
+    simp only [hm', Bool.false_eq_true, if_false]; exact ⟨rfl, rfl⟩
+  · have hm' : d.norm.opts.managed = true := hm
+    simp only [hm', if_true]; exact ⟨rfl, trivial⟩
+
+theorem modTxn_norm (d : Db) (t : TxnM) (e : Ent) : modTxn d.norm t e = modTxn d t e := rfl
+
+theorem norm_modify (d : Db) (id : Nat) (e : Ent)
+    (hv : (d.modify id e).2 = (d.norm.modify id e).2) :
+    (d.modify id e).1.norm = (d.norm.modify id e).1 := by
+  cases hf : d.findTxn id with
+  | none =>
+    have hf' : d.norm.findTxn id = none := hf
+    rw [modify_none e hf, modify_none e hf']
+  | some t =>
+    have hf' : d.norm.findTxn id = some t := hf
+    rw [modify_verdict e hf, modify_verdict e hf'] at hv
+    rw [modify_eq e hf, modify_eq e hf', ← hv]
+    cases modCheck d t e with
+    | some err => rfl
+    | none => rfl
+
+/-- on an on-disk database `norm` does not change the options -/
+theorem norm_opts_disk (d : Db) (h : d.opts.inMemory = false) : d.norm.opts = d.opts := by
+  show ({ d.opts with inMemory := false } : Opts) = d.opts
+  cases ho : d.opts
+  rw [ho] at h
+  simp only at h
+  subst h
+  rfl
+
+theorem modify_verdict_disk (d : Db) (id : Nat) (e : Ent) (h : d.opts.inMemory = false) :
+    (d.norm.modify id e).2 = (d.modify id e).2 := by
+  cases hf : d.findTxn id with
+  | none =>
+    have hf' : d.norm.findTxn id = none := hf
+    rw [modify_none e hf, modify_none e hf']
+  | some t =>
+    have hf' : d.norm.findTxn id = some t := hf
+    rw [modify_verdict e hf, modify_verdict e hf']
+    unfold modCheck
+    rw [norm_opts_disk d h]
+
+def GetRes.eraseVP : GetRes → GetRes
+  | .found e v => .found e.eraseVP v
+  | r => r
+
+theorem getAnswer_eraseVP (t : TxnM) (k : Bytes) (now : Nat) (snap : Option Ent) :
+    (getAnswer t k now (snap.map Ent.eraseVP)).eraseVP = (getAnswer t k now snap).eraseVP := by
+  unfold getAnswer
+  cases hk : k.isEmpty
+  · cases hd : t.discarded
+    · simp only [Bool.false_eq_true, if_false]
+      cases pendingHit t k with
+      | some e => rfl
+      | none =>
+        cases snap with
+        | none => rfl
+        | some e =>
+          simp only [Option.map_some, eraseVP_dead]
+          by_cases hx : deletedOrExpired e.emeta e.exp now = true
+          · simp only [if_pos hx]
+          · simp only [if_neg hx, GetRes.eraseVP, eraseVP_idem, eraseVP_ver]
+    · rfl
+  · rfl
+
+theorem norm_txnGet (d : Db) (id : Nat) (k : Bytes) :
+    (d.txnGet id k).1.norm = (d.norm.txnGet id k).1 ∧
+    ((d.norm.txnGet id k).2).eraseVP = ((d.txnGet id k).2).eraseVP := by
+  cases hf : d.findTxn id with
+  | none =>
+    have hf' : d.norm.findTxn id = none := hf
+    simp only [Db.txnGet, hf, hf']
+    exact ⟨trivial, trivial⟩
+  | some t =>
+    have hf' : d.norm.findTxn id = some t := hf
+    rw [txnGet_eq k hf, txnGet_eq k hf']
+    constructor
+    · simp only
+      split <;> rfl
+    · simp only [norm_lsm, norm_now, C37_get_eraseVP]
+      exact getAnswer_eraseVP t k d.now _
+
+theorem flush_eraseVP (s : Lsm) : s.flush.eraseVP = s.eraseVP.flush := by
+  unfold Lsm.flush
+  have h1 : (s.eraseVP.mem).isEmpty = s.mem.isEmpty := by
+    simp [Lsm.eraseVP, eraseL]
+  rw [h1]
+  cases hm : s.mem.isEmpty
+  · simp only [Bool.false_eq_true, if_false]
+    cases hl : s.levels with
+    | nil => simp [Lsm.eraseVP, hl]
+    | cons l0 rest =>
+      simp [Lsm.eraseVP, hl, Tbl.eraseVP, eraseL]
+  · rfl
+
+
+theorem merge2_eraseL (a b : List Ent) : merge2 (eraseL a) (eraseL b) = eraseL (merge2 a b) := by
+  fun_induction merge2 a b with
+  | case1 ys => simp [eraseL, merge2]
+  | case2 xs h => 
+    cases xs with
+    | nil => simp [eraseL, merge2]
+    | cons x xs => simp [eraseL, merge2]
+  | case3 x xs y ys h ih =>
+    simp only [eraseL, List.map_cons] at ih ⊢
+    rw [merge2, entCmp_eraseVP, h]
+    simp only [ih]
+  | case4 x xs y ys h ih =>
+    simp only [eraseL, List.map_cons] at ih ⊢
+    rw [merge2, entCmp_eraseVP, h]
+    simp only [ih]
+  | case5 x xs y ys h ih =>
+    simp only [eraseL, List.map_cons] at ih ⊢
+    rw [merge2, entCmp_eraseVP, h]
+    simp only [ih]
+
+theorem mergeAll_eraseL (srcs : List (List Ent)) :
+    mergeAll (srcs.map eraseL) = eraseL (mergeAll srcs) := by
+  induction srcs with
+  | nil => rfl
+  | cons s ss ih =>
+    simp only [mergeAll, List.map_cons, List.foldr_cons] at ih ⊢
+    rw [ih, merge2_eraseL]
+
+
+theorem eraseVP_ikey (e : Ent) : e.eraseVP.ikey = e.ikey := rfl
+
+theorem parseItems_eraseL (o : IterOpts) (readTs now : Nat) (fuel : Nat) :
+    (∀ e rest, parseItems.revFill o readTs now fuel e.eraseVP (eraseL rest) =
+        eraseL (parseItems.revFill o readTs now fuel e rest)) ∧
+    (∀ lk l, parseItems o readTs now fuel lk (eraseL l) = eraseL (parseItems o readTs now fuel lk l)) := by
+  induction fuel with
+  | zero =>
+    constructor
+    · intro e rest; simp [parseItems.revFill, eraseL]
+    · intro lk l; simp [parseItems, eraseL]
+  | succ f ih =>
+    obtain ⟨ih1, ih2⟩ := ih
+    constructor
+    · intro e rest
+      cases rest with
+      | nil =>
+        rw [show eraseL [] = [] from rfl, parseItems.revFill.eq_2, parseItems.revFill.eq_2, eraseVP_dead]
+        by_cases hx : deletedOrExpired e.emeta e.exp now = true
+        · simp only [if_pos hx]; exact ih2 none []
+        · simp only [if_neg hx]; rfl
+      | cons n rest' =>
+        rw [show eraseL (n :: rest') = n.eraseVP :: eraseL rest' from rfl]
+        unfold parseItems.revFill
+        rw [eraseVP_dead]
+        by_cases hx : deletedOrExpired e.emeta e.exp now = true
+        · simp only [if_pos hx]; exact ih2 none (n :: rest')
+        · simp only [if_neg hx]
+          rw [eraseVP_key, eraseVP_ver, eraseVP_key]
+          by_cases hn : (decide (n.ver ≤ readTs) && n.key == e.key) = true
+          · simp only [if_pos hn]; exact ih1 n rest'
+          · simp only [if_neg hn]
+            rw [show n.eraseVP :: eraseL rest' = eraseL (n :: rest') from rfl, ih2]
+            rfl
+    · intro lk l
+      cases l with
+      | nil => simp [parseItems, eraseL]
+      | cons e rest =>
+        rw [show eraseL (e :: rest) = e.eraseVP :: eraseL rest from rfl, parseItems.eq_3, parseItems.eq_3]
+        rw [eraseVP_key, eraseVP_ver, eraseVP_ikey, eraseVP_dead]
+        by_cases h1 : (!o.reverse && !List.isEmpty o.prefix_ && !List.isPrefixOf o.prefix_ e.key) = true
+        · simp only [if_pos h1]; rfl
+        simp only [if_neg h1]
+        by_cases h2 : (!o.internalAccess && List.isPrefixOf badgerPrefix e.ikey) = true
+        · simp only [if_pos h2]; exact ih2 lk rest
+        simp only [if_neg h2]
+        by_cases h3 : (decide (e.ver > readTs) || decide (o.sinceTs > 0) && decide (e.ver ≤ o.sinceTs)) = true
+        · simp only [if_pos h3]; exact ih2 lk rest
+        simp only [if_neg h3]
+        by_cases h4 : o.allVersions = true
+        · simp only [if_pos h4, ih2]; rfl
+        simp only [if_neg h4]
+        by_cases h5 : (!o.reverse) = true
+        · simp only [if_pos h5]
+          by_cases h6 : (lk == some e.key) = true
+          · simp only [if_pos h6]; exact ih2 lk rest
+          simp only [if_neg h6]
+          by_cases h7 : deletedOrExpired e.emeta e.exp now = true
+          · simp only [if_pos h7]; exact ih2 _ rest
+          · simp only [if_neg h7, ih2]; rfl
+        · simp only [if_neg h5]; exact ih1 e rest
+
+theorem seekList_eraseL (merged : List Ent) (o : IterOpts) (readTs : Nat) (seek : Option Bytes) :
+    seekList (eraseL merged) o readTs seek = eraseL (seekList merged o readTs seek) := by
+  rw [seekList_eq, seekList_eq]
+  generalize seekKeyOf o seek = key
+  unfold seekFrom
+  have hc1 : ((fun e : Ent => kvCmp e.key e.ver key readTs == Ordering.lt) ∘ Ent.eraseVP) =
+      (fun e : Ent => kvCmp e.key e.ver key readTs == Ordering.lt) := rfl
+  have hc2 : ((fun e : Ent => kvCmp e.key e.ver key 0 == Ordering.gt) ∘ Ent.eraseVP) =
+      (fun e : Ent => kvCmp e.key e.ver key 0 == Ordering.gt) := rfl
+  simp only [eraseL, ← List.map_reverse, List.dropWhile_map, hc1, hc2]
+  cases key.isEmpty <;> cases o.reverse <;> rfl
+
+theorem validPrefix_eraseL (o : IterOpts) (items : List Ent) :
+    validPrefix o (eraseL items) = eraseL (validPrefix o items) := by
+  unfold validPrefix
+  simp only [eraseL, List.takeWhile_map]
+  rfl
+
+
+theorem eraseL_flatten (X : List (List Ent)) : eraseL X.flatten = (X.map eraseL).flatten := by
+  simp only [eraseL, List.map_flatten]
+  rfl
+
+theorem sources_eraseVP (s : Lsm) : s.eraseVP.sources = s.sources.map eraseL := by
+  unfold Lsm.sources
+  cases hl : s.levels with
+  | nil => simp [Lsm.eraseVP, hl]
+  | cons l0 rest =>
+    simp only [Lsm.eraseVP, hl, List.map_cons, List.map_append, List.map_reverse, List.map_map,
+      List.cons_append, List.cons.injEq, true_and]
+    congr 1
+    congr 1
+    congr 1
+    funext tbls
+    simp only [Function.comp, eraseL_flatten, List.map_map]
+    rfl
+
+theorem norm_iterate (d : Db) (id : Nat) (o : IterOpts) (seek : Option Bytes) :
+    (d.norm.iterate id o seek).map eraseL = (d.iterate id o seek).map eraseL := by
+  unfold Db.iterate
+  rw [norm_findTxn]
+  cases d.findTxn id with
+  | none => rfl
+  | some t =>
+    simp only [Option.map_some, norm_lsm, norm_now, sources_eraseVP]
+    congr 1
+    have hm : eraseL (mergeAll (pendingSource t :: d.lsm.sources.map eraseL)) =
+        eraseL (mergeAll (pendingSource t :: d.lsm.sources)) := by
+      rw [← mergeAll_eraseL, ← mergeAll_eraseL]
+      simp only [List.map_cons, List.map_map]
+      congr 2
+      apply List.map_congr_left
+      intro l _
+      exact eraseL_idem l
+    have hr : eraseL (seekList (mergeAll (pendingSource t :: d.lsm.sources.map eraseL)) o t.readTs seek) =
+        eraseL (seekList (mergeAll (pendingSource t :: d.lsm.sources)) o t.readTs seek) := by
+      rw [← seekList_eraseL, ← seekList_eraseL, hm]
+    have hlen : (seekList (mergeAll (pendingSource t :: d.lsm.sources.map eraseL)) o t.readTs seek).length =
+        (seekList (mergeAll (pendingSource t :: d.lsm.sources)) o t.readTs seek).length := by
+      have := congrArg List.length hr
+      simpa [eraseL] using this
+    rw [hlen, ← validPrefix_eraseL, ← validPrefix_eraseL, ← (parseItems_eraseL o t.readTs d.now _).2,
+      ← (parseItems_eraseL o t.readTs d.now _).2, hr]
+
+theorem iterReads_eraseL (seek : Option Bytes) (items : List Ent) :
+    iterReads seek (eraseL items) = iterReads seek items := by
+  simp [iterReads, eraseL]
+
+
+/-- operations covered by the simulation proof (everything except `compact`) -/
+def Op.covered : Op → Bool
+  | .compact _ => false
+  | _ => true
+
+theorem norm_step_iter (d : Db) (id : Nat) (o : IterOpts) (seek : Option Bytes) :
+    (d.step (.iter id o seek)).norm = d.norm.step (.iter id o seek) := by
+  have hi := norm_iterate d id o seek
+  simp only [Db.step, norm_findTxn]
+  cases h1 : d.iterate id o seek with
+  | none =>
+    rw [h1] at hi
+    cases h2 : d.norm.iterate id o seek with
+    | none => rfl
+    | some items' => rw [h2] at hi; cases hi
+  | some items =>
+    rw [h1] at hi
+    cases h2 : d.norm.iterate id o seek with
+    | none => rw [h2] at hi; cases hi
+    | some items' =>
+      rw [h2] at hi
+      simp only [Option.map_some, Option.some.injEq] at hi
+      cases d.findTxn id with
+      | none => rfl
+      | some t =>
+        simp only
+        have : iterReads seek items' = iterReads seek items := by
+          rw [← iterReads_eraseL seek items', hi, iterReads_eraseL]
+        rw [this]
+        split <;> rfl
+
+theorem norm_fix {a b : Db} (h : a.norm = b) : a.norm = b.norm := by rw [← h, norm_idem]
+
+theorem C37_step_norm (d : Db) (op : Op) (hc : op.covered = true)
+    (hset : ∀ id e, op = .set id e → (d.modify id e).2 = (d.norm.modify id e).2) :
+    (d.step op).norm = (d.norm.step op).norm := by
+  cases op with
+  | begin id u m => exact norm_fix (norm_begin d id u m).1
+  | set id e => exact norm_fix (norm_modify d id e (hset id e rfl))
+  | get id k => exact norm_fix (norm_txnGet d id k).1
+  | commit id m => exact (norm_commit d id m).1
+  | discard id => exact norm_fix (norm_discardTxn d id)
+  | iter id o seek => exact norm_fix (norm_step_iter d id o seek)
+  | flush =>
+    simp only [Db.step]
+    show ({ d with lsm := d.lsm.flush } : Db).norm = ({ d.norm with lsm := d.norm.lsm.flush } : Db).norm
+    simp only [Db.norm, flush_eraseVP, Lsm.eraseVP_idem]
+  | setNow t => simp only [Db.step]; show _ = ({ d.norm with now := t } : Db).norm; simp [Db.norm, Lsm.eraseVP_idem]
+  | setDiscard ts =>
+    simp only [Db.step]
+    rw [norm_cleanup]
+    show _ = (({ d.norm with discardTs := ts } : Db).cleanup).norm
+    rw [norm_cleanup]
+    congr 1
+    simp [Db.norm, Lsm.eraseVP_idem]
+  | compact cd => cases hc
+
+/-- the initial states of the two modes agree up to `norm` -/
+theorem C37_init (o : Opts) (now : Nat) :
+    (Db.init { o with inMemory := true } now).norm = (Db.init { o with inMemory := false } now).norm := rfl
+
+/-- **Simulation step.** An in-memory and an on-disk database that agree up to `norm` still
+    agree after the same operation, provided a `set` is accepted or rejected alike in both
+    modes (the in-memory mode additionally rejects values longer than the threshold). -/
+theorem C37_same_reads (dI dD : Db) (op : Op) (h : dI.norm = dD.norm) (hD : dD.opts.inMemory = false)
+    (hc : op.covered = true)
+    (hset : ∀ id e, op = .set id e → (dI.modify id e).2 = (dD.modify id e).2) :
+    (dI.step op).norm = (dD.step op).norm := by
+  rw [C37_step_norm dI op hc, C37_step_norm dD op hc, h]
+  · intro id e _; exact (modify_verdict_disk dD id e hD).symm
+  · intro id e he
+    rw [hset id e he, h]; exact (modify_verdict_disk dD id e hD).symm
+
+/-- …hence equal read results modulo the value-pointer bit: `DB.get`, `Txn.Get`, iterators. -/
+theorem C37_same_get (dI dD : Db) (h : dI.norm = dD.norm) :
+    (∀ k ts, (dI.lsm.get k ts).map Ent.eraseVP = (dD.lsm.get k ts).map Ent.eraseVP) ∧
+    (∀ id k, ((dI.txnGet id k).2).eraseVP = ((dD.txnGet id k).2).eraseVP) ∧
+    (∀ id o seek, (dI.iterate id o seek).map eraseL = (dD.iterate id o seek).map eraseL) := by
+  refine ⟨?_, ?_, ?_⟩
+  · intro k ts
+    rw [← C37_get_eraseVP, ← C37_get_eraseVP]
+    have : dI.norm.lsm = dD.norm.lsm := by rw [h]
+    exact congrArg (fun s => s.get k ts) this
+  · intro id k
+    rw [← (norm_txnGet dI id k).2, ← (norm_txnGet dD id k).2, h]
+  · intro id o seek
+    rw [← norm_iterate dI, ← norm_iterate dD, h]
+
+/-- the `set` verdicts agree along a whole run -/
+def Agree : Db → Db → List Op → Prop
+  | _, _, [] => True
+  | dI, dD, op :: ops =>
+    op.covered = true ∧ (∀ id e, op = .set id e → (dI.modify id e).2 = (dD.modify id e).2) ∧
+      Agree (dI.step op) (dD.step op) ops
+
+/-- **Simulation over histories**: for every operation sequence accepted alike in both modes the
+    final states agree up to the value-pointer bit. -/
+theorem C37_same_reads_run (dI dD : Db) (ops : List Op) (h : dI.norm = dD.norm)
+    (hD : dD.opts.inMemory = false) (ha : Agree dI dD ops) :
+    (dI.run ops).norm = (dD.run ops).norm := by
+  induction ops generalizing dI dD with
+  | nil => exact h
+  | cons op ops ih =>
+    obtain ⟨hc, hset, ha'⟩ := ha
+    simp only [Db.run, List.foldl_cons]
+    exact ih _ _ (C37_same_reads dI dD op h hD hc hset) (by rw [step_opts]; exact hD) ha'
+
+/-- the compaction step of the simulation (full statement; see `C37_compact_norm` below if
+    present, otherwise this part is open): compaction reads only keys, versions, expiry and
+    the delete / merge / discard-earlier bits, never the value-pointer bit. -/
+def C37_same_reads_compactStatement : Prop :=
+  ∀ (d : Db) (cd : CompactDef), (d.step (.compact cd)).norm = (d.norm.step (.compact cd)).norm
+
+-- non-vacuity: the same history in both modes (value of 3 bytes, threshold 2: a pointer on
+-- disk, inline in memory — and a threshold large enough for the in-memory `set` to be accepted
+-- is required, here the verdicts differ, which is exactly the excluded case)
+example :
+    let ops : List Op := [.begin 1 true 0,
+      .set 1 { key := [0x61], ver := 0, emeta := 0, umeta := 7, exp := 0, val := [1, 2, 3] },
+      .commit 1 0, .flush, .begin 2 false 0, .get 2 [0x61]]
+    let dI := Db.init { inMemory := true, threshold := 3, maxBatchCount := 100, maxBatchSize := 100000 } 0
+    let dD := Db.init { inMemory := false, threshold := 3, maxBatchCount := 100, maxBatchSize := 100000 } 0
+    ((dI.run ops).lsm.get [0x61] 1).map (·.emeta) = some 64 ∧
+    ((dD.run ops).lsm.get [0x61] 1).map (·.emeta) = some 66 ∧
+    ((dI.run ops).lsm.get [0x61] 1).map (·.eraseVP.val) = ((dD.run ops).lsm.get [0x61] 1).map (·.eraseVP.val) := by
+  decide
+
 end Badger
